@@ -40,3 +40,9 @@ func (u *Unreliable) VerifUnreliableState() (st int, initiateDone, senderDone, c
 	}
 	return st, isClosed(u.initiateDone), isClosed(u.senderDone), isClosed(u.closed)
 }
+
+// VerifSenderQueue: length and capacity of the tube's sender queue (sender.sendQueue), whose only
+// consumer is Reliable.send (model: ql / qcap of coq/Model/ShutdownQ.v).
+func (r *Reliable) VerifSenderQueue() (n, capacity int) {
+	return len(r.sender.sendQueue), cap(r.sender.sendQueue)
+}
